@@ -50,6 +50,11 @@ def cases(tier):
     return [(s, helper) for s in SHAPES for helper in ('create_test_task', 'TestChain')]
 
 
+def _callable_value(*a):
+    """a mocked upstream value that happens to be callable (e.g. a scoring function)"""
+    return ('called', a)
+
+
 def make_harness(case, tier):
     shape, helper = case
     keylib.setup(full=True, hash_mode='auto')
@@ -61,7 +66,8 @@ def make_harness(case, tier):
         from ref import pobjects as PO
         fs = keylib.fresh_fs()
         cl = family.make_pipeline(spec)
-        mocks = {'Alpha': ctx.sym_val('ma') if ctx.flag('opaque') else ctx.sym_int('mi'),
+        kindA = ctx.choice('alpha_mock', 3)
+        mocks = {'Alpha': [ctx.sym_val('ma'), ctx.sym_int('mi'), _callable_value][kindA] if kindA < 2 else _callable_value,
                  'Beta': ctx.sym_str('mb')}
         family.CONST.clear()
         family.CONST.update(mocks)
@@ -93,6 +99,13 @@ def make_harness(case, tier):
         # the real chain: upstream tasks are in-memory tasks returning the mocked values
         rp = dict(params)
         real = keylib.chain(Config(fs.path('/data/real'), name='test', data=dict(rp, tasks=list(cl.values()))))
+        if shape == 'chain-object' and ctx.flag('configure_object_afterwards'):
+            # the test configures the parameter object it handed in after the helper was built
+            k2 = ctx.sym_int('k2')
+            hp['scaler'].k = k2
+            params['scaler'].k = k2
+            for t in list(helper_tasks.values()):
+                t.reset_data() if hasattr(t, 'reset_data') else None
         for sl, t in helper_tasks.items():
             hv = family.norm_input(t.value)
             rv = family.norm_input(real[sl].value)
